@@ -35,7 +35,7 @@ import os
 
 ABIS = ("__cdecl", "__stdcall")
 QUALS = ("const", "volatile")
-PRIMSPEC = ("short", "long", "signed", "unsigned", "int", "char", "double", "float", "_Bool", "void")
+PRIMSPEC = ("short", "long", "signed", "unsigned", "int", "char", "double", "float", "_Bool", "void", "_Complex")
 KEYWORDS = set(PRIMSPEC) | set(QUALS) | set(ABIS) | {"struct", "union", "enum"}
 
 # ---------------------------------------------------------------------------------------
@@ -56,13 +56,60 @@ typedef struct { char c; long l; } td_a;
 """
 DECLS = DECLS_A + DECLS_B
 
+# The extended contexts (C07 only: `make_pair(..., ext=True)`; C08 keeps DECLS).  XA goes with
+# DECLS_A (the included FFI of the 'include' context), XB with DECLS_B.
+#   constants of every kind that can stand between [ ]: negative / > 2**32 / > SSIZE_MAX #defines,
+#   an enumerator of an anonymous enum, a negative enumerator, an enumerator of a typedef'd
+#   anonymous enum (X1), a constant without a value, and two globals that are not constants;
+#   typedefs of an array, a function, a function pointer, void, an anonymous enum, a pointer to
+#   an anonymous struct.
+DECLS_XA = """
+#define NEG -1
+#define BIG 0x100000000
+#define HUGE 0xFFFFFFFFFFFFFFFF
+enum { AN = 6 };
+enum EN { EM = -2, EP = 3 };
+static const int SK;
+int gfunc(int);
+extern int gvar;
+"""
+DECLS_XB = """
+typedef int td_arr[3];
+typedef int td_fn(int);
+typedef int (*td_fp)(int);
+typedef void td_v;
+typedef enum { X0, X1 = 7 } td_e;
+typedef struct { int q; } *td_np;
+"""
+# what an API-mode module needs in addition to the declarations themselves
+API_SOURCE_TAIL = """
+int gfunc(int x) { return x; }
+int gvar;
+"""
+
 # name -> namespace.  'tagged_typedef' marks the typedef whose direct target is a tagged struct
 # (DESIGN section 6, #12).
 NAMES = {
     "K": "const", "Z": "const", "E0": "const", "E1": "const", "E2": "const",
     "td_i": "typedef", "td_p": "typedef", "td_s": "typedef", "td_a": "typedef",
+    # extended contexts
+    "NEG": "const", "BIG": "const", "HUGE": "const", "AN": "const", "EM": "const", "EP": "const",
+    "SK": "const", "X0": "const", "X1": "const", "gfunc": "global", "gvar": "global",
+    "td_arr": "typedef", "td_fn": "typedef", "td_fp": "typedef", "td_v": "typedef", "td_e": "typedef",
+    "td_np": "typedef",
 }
-TAGS = {"S": "struct", "St": "struct", "U": "union", "E": "enum"}
+TAGS = {"S": "struct", "St": "struct", "U": "union", "E": "enum", "EN": "enum"}
+# the names that only the extended contexts declare
+EXT_NAMES = frozenset(["NEG", "BIG", "HUGE", "AN", "EM", "EP", "SK", "X0", "X1", "gfunc", "gvar", "EN",
+                       "td_arr", "td_fn", "td_fp", "td_v", "td_e", "td_np"])
+# how a constant name was declared (features / cause classification of C07)
+CONST_KIND = {"K": "define", "Z": "define", "NEG": "define", "BIG": "define", "HUGE": "define",
+              "E0": "enumerator", "E1": "enumerator", "E2": "enumerator", "AN": "enumerator",
+              "EM": "enumerator", "EP": "enumerator", "X0": "enumerator", "X1": "enumerator",
+              "SK": "novalue", "gfunc": "global", "gvar": "global"}
+# names that both parsers know without any declaration (cffi/commontypes.py, parse_c_type.c
+# search_standard_typename / get_common_type): type specifiers in every context, also 'empty'
+COMMON_TYPES = ("bool", "int32_t", "size_t", "wchar_t", "char16_t")
 
 CONTEXTS = ("empty", "decls", "include")
 
@@ -80,13 +127,18 @@ _PRIM_MULTISETS = [
     ("signed", "long", "long", "int"), ("unsigned", "long", "long"), ("unsigned", "long", "long", "int"),
     ("float",), ("double",), ("long", "double"), ("void",), ("_Bool",),
 ]
+# extended grammar (Grammar(ext=True)): _Complex is a primitive specifier, so its multisets are
+# re-ordered and qualified like the others; typedefs of every type constructor and the
+# predeclared names are type specifiers like td_i.  All of them are cost-1 heads.
+_PRIM_MULTISETS_X = [("float", "_Complex"), ("double", "_Complex")]
+BASES_X = [("td_arr",), ("td_fn",), ("td_fp",), ("td_v",), ("td_e",), ("td_np",)] + [(n,) for n in COMMON_TYPES]
 
 
-def spec_orderings():
+def spec_orderings(ext=False):
     """Every ordering of every primitive specifier multiset, each as a list of specifiers."""
     out = []
     seen = set()
-    for ms in _PRIM_MULTISETS:
+    for ms in _PRIM_MULTISETS + (_PRIM_MULTISETS_X if ext else []):
         for p in sorted(set(itertools.permutations(ms))):
             if p not in seen:
                 seen.add(p)
@@ -94,7 +146,7 @@ def spec_orderings():
     return out
 
 
-def _specs(budget):
+def _specs(budget, ext=False):
     """[(cost, tokens)] for every Specs derivation of cost <= budget."""
     heads = []         # (cost, [specifier, ...]) where a specifier is a tuple of tokens
     canon = set()
@@ -105,9 +157,12 @@ def _specs(budget):
             heads.append((0, [(t,) for t in b]))
             canon.add(b)
     if budget >= 1:
-        for p in spec_orderings():
+        for p in spec_orderings(ext):
             if p not in canon:
                 heads.append((1, [(t,) for t in p]))
+        if ext:
+            for b in BASES_X:
+                heads.append((1, [(t,) for t in b]))
     out = {}
     for c0, sp in heads:
         n = len(sp)
@@ -146,24 +201,34 @@ PTR_QUALS = [(), ("const",), ("volatile",), ("const", "volatile"), ("volatile", 
 
 
 class Grammar(object):
-    def __init__(self):
+    """Grammar() is the grammar of the module docstring (what C08 enumerates).  Grammar(ext=True)
+    adds, as Specs heads of cost 1: every ordering of float/double + _Complex, the typedefs of
+    DECLS_XB (array, function, function pointer, void, anonymous enum, pointer to an anonymous
+    struct) and the predeclared names COMMON_TYPES; it is a superset of Grammar()."""
+
+    def __init__(self, ext=False):
+        self.ext = ext
         self._tn = {}
         self._params = {}
+        self._decls = {}
 
-    def typenames(self, budget):
-        """Sorted list of (cost, tokens) of every TypeName derivation of cost <= budget."""
-        if budget in self._tn:
-            return self._tn[budget]
+    def typenames(self, budget, hole=False):
+        """Sorted list of (cost, tokens) of every TypeName derivation of cost <= budget.
+        hole=True: the tokens keep the hole '&' (the place of the declared name), and only
+        derivations in which a name may stand there are returned (see decls)."""
+        key = (budget, hole)
+        if key in self._tn:
+            return self._tn[key]
         out = {}
-        specs = _specs(budget)
+        specs = _specs(budget, self.ext)
         for cs, st in specs:
-            for cd, dt in self.decls(budget - cs):
+            for cd, dt in self.decls(budget - cs, hole):
                 t = st + dt
                 c = cs + cd
                 if t not in out or out[t] > c:
                     out[t] = c
         res = sorted(((c, t) for t, c in out.items()), key=lambda x: (x[0], len(x[1]), x[1]))
-        self._tn[budget] = res
+        self._tn[key] = res
         return res
 
     def params(self, budget):
@@ -190,12 +255,16 @@ class Grammar(object):
         self._params[budget] = out
         return out
 
-    def decls(self, budget):
-        """[(cost, tokens)] of every abstract declarator of cost <= budget (hole removed)."""
+    def decls(self, budget, hole=False):
+        """[(cost, tokens)] of every abstract declarator of cost <= budget (hole removed;
+        hole=True: hole kept as '&')."""
+        key = (budget, hole)
+        if key in self._decls:
+            return self._decls[key]
         out = {}
 
         def emit(d, cost):
-            t = tuple(x for x in d if x != "&")
+            t = d if hole else tuple(x for x in d if x != "&")
             if t not in out or out[t] > cost:
                 out[t] = cost
 
@@ -256,7 +325,9 @@ class Grammar(object):
                 rec(nd, (i, j + 2), cost + 1, pending_fn)
 
         rec(("&",), None, 0, False)
-        return sorted(((c, t) for t, c in out.items()), key=lambda x: (x[0], len(x[1]), x[1]))
+        res = sorted(((c, t) for t, c in out.items()), key=lambda x: (x[0], len(x[1]), x[1]))
+        self._decls[key] = res
+        return res
 
 
 # ---------------------------------------------------------------------------------------
@@ -359,7 +430,7 @@ def spec_lists(tokens):
                 specs.append(j)
                 if j + 1 < n and tokens[j + 1] in TAGS:
                     j += 1
-            elif t in TYPEDEFS and not specs:
+            elif (t in TYPEDEFS or t in COMMON_TYPES) and not specs:
                 specs.append(j)
             else:
                 break
@@ -379,7 +450,9 @@ def in_scope(tokens, context):
         position: not declared with that keyword);
       declarator_name -- an identifier that is neither a tag after struct/union/enum, nor inside
         [ ], nor a typedef name in type-specifier position: it would be read as the name of the
-        declared object or parameter (`int (x)`), which type strings do not have."""
+        declared object or parameter (`int (x)`), which type strings do not have;
+      constant_without_value -- ('api' context) a constant whose value the cdef does not give.
+    The names COMMON_TYPES are declared in every context."""
     prev = None
     spec_pos = None
     in_brackets = False
@@ -389,12 +462,13 @@ def in_scope(tokens, context):
         elif t == "]":
             in_brackets = False
         elif _wordy(t) and not t[0].isdigit() and t not in KEYWORDS:
-            if context == "empty":
+            common = t in COMMON_TYPES and prev not in ("struct", "union", "enum")
+            if context == "empty" and not common:
                 return "undeclared_name"
             if prev in ("struct", "union", "enum"):
                 if TAGS.get(t) != prev:
                     return "undeclared_tag"
-            elif t not in NAMES and t not in TAGS:
+            elif not common and t not in NAMES and t not in TAGS:
                 return "undeclared_name"
             elif not in_brackets:
                 if spec_pos is None:
@@ -403,6 +477,10 @@ def in_scope(tokens, context):
                         spec_pos.update(specs)
                 if i not in spec_pos:
                     return "declarator_name"
+            elif context == "api" and CONST_KIND.get(t) == "novalue":
+                # `static const int SK;`: only the compiled C code knows the value, the in-line FFI
+                # has none to compare with
+                return "constant_without_value"
         prev = t
     return None
 
@@ -438,36 +516,84 @@ def _emit_and_import(ffi, name, directory):
     return mod
 
 
-def make_pair(context, directory):
-    """Build both FFIs of a context from the same declarations."""
+def compile_api_module(directory, name=None):
+    """Compile the API-mode extension module of the extended declarations.  -> (name, path)"""
+    import cffi
+    import contextlib
+    import glob
+    import io
+    if name is None:
+        name = "_c07_api_%d_%d" % (os.getpid(), next(_modcount))
+    decls = DECLS_A + DECLS_XA + DECLS_B + DECLS_XB
+    g = cffi.FFI()
+    g.cdef(decls)
+    g.set_source(name, decls + API_SOURCE_TAIL)
+    tmp = os.path.join(directory, name + "_build")
+    err = io.StringIO()
+    try:
+        with contextlib.redirect_stdout(io.StringIO()), contextlib.redirect_stderr(err):
+            g.compile(tmpdir=tmp, verbose=False)
+    except Exception as e:
+        raise RuntimeError("cannot compile the API-mode module: %s\n%s" % (e, err.getvalue()))
+    found = glob.glob(os.path.join(tmp, name + "*.so"))
+    if len(found) != 1:
+        raise RuntimeError("API-mode module not found in %s" % tmp)
+    return name, found[0]
+
+
+def _import_ext(name, path):
+    import importlib.util
+    import sys
+    if name in sys.modules:
+        return sys.modules[name]
+    spec = importlib.util.spec_from_file_location(name, path)
+    mod = importlib.util.module_from_spec(spec)
+    spec.loader.exec_module(mod)
+    sys.modules[name] = mod
+    return mod
+
+
+def make_pair(context, directory, ext=False, api=None):
+    """Build both FFIs of a context from the same declarations.  ext=True: the declarations
+    include DECLS_XA / DECLS_XB.  Context 'api' (ext only): the compiled side is the ffi of the
+    API-mode extension module `api` = (name, path) made by compile_api_module()."""
     import cffi
     import _cffi_backend
     tag = "%d_%d" % (os.getpid(), next(_modcount))
+    decls_a = DECLS_A + (DECLS_XA if ext else "")
+    decls_b = DECLS_B + (DECLS_XB if ext else "")
     if context == "empty":
         return Pair(context, cffi.FFI(), _cffi_backend.FFI())
     if context == "decls":
         f = cffi.FFI()
-        f.cdef(DECLS)
+        f.cdef(decls_a + decls_b)
         g = cffi.FFI()
-        g.cdef(DECLS)
+        g.cdef(decls_a + decls_b)
         mod = _emit_and_import(g, "_c07_decls_" + tag, directory)
         return Pair(context, f, mod.ffi)
     if context == "include":
         f0 = cffi.FFI()
-        f0.cdef(DECLS_A)
+        f0.cdef(decls_a)
         f = cffi.FFI()
         f.include(f0)
-        f.cdef(DECLS_B)
+        f.cdef(decls_b)
         g0 = cffi.FFI()
-        g0.cdef(DECLS_A)
+        g0.cdef(decls_a)
         _emit_and_import(g0, "_c07_base_" + tag, directory)
         g = cffi.FFI()
         g.include(g0)
-        g.cdef(DECLS_B)
+        g.cdef(decls_b)
         mod = _emit_and_import(g, "_c07_incl_" + tag, directory)
         p = Pair(context, f, mod.ffi)
         p.keep = (f0, g0)
         return p
+    if context == "api":
+        if not ext or api is None:
+            raise ValueError("context 'api' needs ext=True and a compiled module")
+        f = cffi.FFI()
+        f.cdef(decls_a + decls_b)
+        mod = _import_ext(*api)
+        return Pair(context, f, mod.ffi)
     raise ValueError(context)
 
 
